@@ -33,11 +33,17 @@ for (const n of need) if (typeof sandbox[n] !== 'function') { console.error('mis
 const batch = JSON.parse(fs.readFileSync(0, 'utf8'));
 const out = { classify: [], cash: [] };
 for (const [amount, tags] of batch.classify || []) {
+  // a transaction without tags reaches the browser either as a missing key (undefined) or as JSON null: both are tried
   const t = tags === null ? undefined : tags;
   let r;
   try {
     const c = sandbox.categorizeAmount(amount, t);
     r = { ok: true, c: c, ex: sandbox.isExcludedFromSpending(t) };
+    if (tags === null) {
+      const c2 = sandbox.categorizeAmount(amount, null);
+      const ex2 = sandbox.isExcludedFromSpending(null);
+      if (JSON.stringify(c2) !== JSON.stringify(c) || ex2 !== r.ex) r = { ok: false, err: 'tags null and tags undefined are classified differently: ' + JSON.stringify(c2) + ' vs ' + JSON.stringify(c) };
+    }
   } catch (e) { r = { ok: false, err: String(e) }; }
   out.classify.push(r);
 }
